@@ -342,12 +342,12 @@ def _profile(rng, n, reach, style):
     return hs
 
 
-def gen_large_matrix(rng):
-    """A single-trunk shape with sides up to 40: trunk + four side profiles, then possibly a perturbation
-    (near miss).  Returns (matrix, description)."""
-    nN = _reach(rng, 34)
+def gen_large_matrix(rng, MAXSIDE=MAXSIDE):
+    """A single-trunk shape with sides up to MAXSIDE (40): trunk + four side profiles, then possibly a
+    perturbation (near miss).  Returns (matrix, description)."""
+    nN = _reach(rng, MAXSIDE - 6)
     nS = _reach(rng, MAXSIDE - 1 - nN)
-    nW = _reach(rng, 34)
+    nW = _reach(rng, MAXSIDE - 6)
     nE = _reach(rng, MAXSIDE - 1 - nW)
     th = rng.choice([1, 1, 2, 3, 5, 9, 16, 17, 33])
     tw = rng.choice([1, 1, 2, 3, 5, 9, 16, 17, 33])
@@ -462,7 +462,7 @@ def gen_poly_case(rng):
             sides[s] = []
     return {"kind": "poly", "x0": x0, "x1": x1, "y0": y0, "y1": y1, "N": sides["N"], "S": sides["S"],
             "E": sides["E"], "W": sides["W"], "rev": rng.random() < 0.5, "rot": rng.randrange(0, 50),
-            "repr": rng.choice(["point", "ndarray"]), "closed": rng.random() < 0.2}
+            "repr": rng.choice(FORMS_ANY + FORMS_F32), "closed": rng.random() < 0.2, "twice": rng.random() < 0.2}
 
 
 def poly_vertices(c):
@@ -496,6 +496,171 @@ def poly_vertices(c):
     if c.get("closed"):
         pts.append(pts[0])
     return pts
+
+
+# ---- polygons traced from a grid shape, in every input form ----
+FORMS_ANY = ["point", "rows", "array_f64", "mixed"]          # any binary64 coordinates
+FORMS_F32 = ["array_f32", "rows_f32"]                         # short dyadic mantissas only
+FORMS_INT = ["point_int", "array_i64", "array_i32", "rows_i64"]   # integer coordinates only
+PADDING_LIKE = [(-1, -1), (-1, -1), (-1, -1), (0, 0), (0, 0), (-1, 0), (0, -1), (1, 1), (-1, 1), (1, -1), (-2, -2)]
+
+
+def outline(m):
+    """Vertices (column line, row line) of the boundary of the true cells of m, or None unless the true
+    cells are one 4-connected piece without holes and without two cells touching only at a corner
+    (then the boundary is one simple closed polyline)."""
+    R, C = len(m), len(m[0])
+    get = lambda i, j: 0 <= i < R and 0 <= j < C and m[i][j]
+    nxt = {}
+    n = 0
+    for i in range(R):
+        for j in range(C):
+            if not m[i][j]:
+                continue
+            for free, a, b in ((not get(i - 1, j), (j, i), (j + 1, i)),
+                               (not get(i, j + 1), (j + 1, i), (j + 1, i + 1)),
+                               (not get(i + 1, j), (j + 1, i + 1), (j, i + 1)),
+                               (not get(i, j - 1), (j, i + 1), (j, i))):
+                if free:
+                    if a in nxt:
+                        return None          # two boundary edges leave one point: cells meeting at a corner
+                    nxt[a] = b
+                    n += 1
+    if n == 0:
+        return None
+    start = next(iter(nxt))
+    pts, p = [], start
+    while True:
+        pts.append(p)
+        p = nxt[p]
+        if p == start:
+            break
+    if len(pts) != n:
+        return None                          # several loops: holes or several pieces
+    out = []
+    for k, p in enumerate(pts):
+        a, b = pts[k - 1], pts[(k + 1) % len(pts)]
+        if not ((a[0] == p[0] == b[0]) or (a[1] == p[1] == b[1])):
+            out.append(p)
+    return out
+
+
+def _widths(rng, n, mode):
+    if mode == "int":
+        return [F(rng.choice([1, 1, 2, 3, 5])) for _ in range(n)]
+    if mode == "decimal":     # sides of at least 0.3 and coordinates below 128: binary64 rounding stays far below
+        #                        the tolerance the netlist reader derives from the smallest side (1e-12 of it)
+        return [F(rng.choice([3, 7, 11, 13, 25]), 10) if rng.random() < 0.7 else F(rng.randrange(30, 400), 100)
+                for _ in range(n)]
+    return [F(rng.choice([1, 2, 3, 4, 5, 8, 13]), rng.choice([1, 2, 4])) for _ in range(n)]
+
+
+def gen_gpoly_case(rng, big=False):
+    """A simple orthogonal polygon traced from a grid shape (single-trunk shapes and near misses, so that
+    both outcomes occur), placed on chosen coordinates and handed over in one of the accepted forms."""
+    while True:
+        if big:
+            m, tag = gen_large_matrix(rng, rng.choice([18, 20, 24]))
+        else:
+            R, C = rng.randrange(1, 9), rng.randrange(1, 9)
+            m = gen_strop_matrix(rng, R, C)
+            tag = "strop"
+            if rng.random() < 0.3:
+                for _ in range(rng.choice([1, 1, 2])):
+                    i, j = rng.randrange(R), rng.randrange(C)
+                    m[i][j] = 1 - m[i][j]
+                tag = "perturbed"
+        pts = outline(m)
+        if pts is not None:
+            break
+    R, C = len(m), len(m[0])
+    mode = rng.choice(["dyadic", "dyadic", "int", "int", "decimal"])
+    ws, hs = _widths(rng, C, mode), _widths(rng, R, mode)
+    place = rng.choice(["anchor", "anchor", "negative", "straddle", "positive", "bigoffset"])
+    if mode == "decimal" and place in ("bigoffset",):
+        place = "positive"
+    unit = {"int": 1, "dyadic": 4, "decimal": 10}[mode]
+    span = 20 if mode == "decimal" else 40
+    if place == "positive":
+        ox, oy = F(rng.randrange(0, span * unit), unit), F(rng.randrange(0, span * unit), unit)
+    elif place == "bigoffset":
+        ox = F(rng.choice([2 ** 16, -2 ** 16, 10 ** 5, 2 ** 20, -2 ** 20, 10 ** 6, -10 ** 6]))
+        oy = F(rng.choice([2 ** 16, -2 ** 16, 10 ** 5, 2 ** 20, -2 ** 20, 10 ** 6, 0]))
+    else:
+        ox, oy = F(rng.randrange(-span * unit, 0), unit), F(rng.randrange(-span * unit, 0), unit)
+    xs = [ox]
+    for w in ws:
+        xs.append(xs[-1] + w)
+    ys = [oy]
+    for h in hs:
+        ys.append(ys[-1] + h)
+    ys.reverse()                      # row 0 is the top row
+    anchor = None
+    if place == "straddle":           # a grid line exactly at 0 in each axis
+        dx, dy = rng.choice(xs), rng.choice(ys)
+        xs, ys = [x - dx for x in xs], [y - dy for y in ys]
+    elif place == "anchor":           # one corner of the polygon exactly at a padding-like point
+        anchor = rng.randrange(len(pts))
+        tx, ty = rng.choice(PADDING_LIKE)
+        dx, dy = xs[pts[anchor][0]] - tx, ys[pts[anchor][1]] - ty
+        xs, ys = [x - dx for x in xs], [y - dy for y in ys]
+    allint = all(v.denominator == 1 for v in xs + ys)
+    short = all(abs(v) < 2 ** 17 and v.denominator in (1, 2, 4) for v in xs + ys)
+    forms = list(FORMS_ANY) * 2
+    if mode != "decimal" and short:
+        forms += FORMS_F32
+    if allint and all(abs(v) < 2 ** 30 for v in xs + ys):
+        forms += FORMS_INT * 2
+    where = rng.choice(["last", "last", "first", "any"]) if anchor is not None else "any"
+    return {"kind": "gpoly", "gen": tag, "mode": mode, "place": place, "rows": to_rows(m), "xs": xs, "ys": ys,
+            "rev": rng.random() < 0.5, "anchor": anchor, "where": where, "rot": rng.randrange(0, 200),
+            "closed": rng.random() < 0.15, "repr": rng.choice(forms), "twice": rng.random() < 0.2}
+
+
+def gpoly_vertices(c):
+    m = [[ch == "1" for ch in row] for row in c["rows"]]
+    idx = outline(m)
+    pts = [(c["xs"][a], c["ys"][b]) for a, b in idx]
+    anchor = pts[c["anchor"]] if c.get("anchor") is not None and c["anchor"] < len(pts) else None
+    if c.get("rev"):
+        pts.reverse()
+    k = c.get("rot", 0) % len(pts)
+    if anchor is not None and c.get("where") in ("first", "last"):
+        k = pts.index(anchor) + (1 if c["where"] == "last" else 0)
+    pts = pts[k:] + pts[:k]
+    if c.get("closed"):
+        pts.append(pts[0])
+    return pts
+
+
+def make_vertices(pts, form):
+    """The vertex list in the requested input form (pts: pairs of Fractions)."""
+    import numpy as np
+    from frame.geometry.geometry import Point
+    fl = [[float(x), float(y)] for x, y in pts]
+    if form == "point":
+        return [Point(x, y) for x, y in fl]
+    if form == "point_int":
+        return [Point(int(x), int(y)) for x, y in pts]
+    if form == "rows":
+        return list(np.array(fl))
+    if form == "rows_f32":
+        return list(np.array(fl, dtype=np.float32))
+    if form == "rows_i64":
+        return list(np.array([[int(x), int(y)] for x, y in pts], dtype=np.int64))
+    if form == "mixed":
+        return [Point(x, y) if k % 2 else np.array([x, y]) for k, (x, y) in enumerate(fl)]
+    if form == "array_f64":
+        return np.array(fl)
+    if form == "array_f32":
+        return np.array(fl, dtype=np.float32)
+    if form == "array_i64":
+        return np.array([[int(x), int(y)] for x, y in pts], dtype=np.int64)
+    if form == "array_i32":
+        return np.array([[int(x), int(y)] for x, y in pts], dtype=np.int32)
+    if form == "ndarray":             # older corpus / replay files
+        return list(np.array(fl))
+    raise ValueError(form)
 
 
 def cell_centres(pts):
@@ -534,7 +699,7 @@ def gen_inside_case(rng):
         pts.append((F(2 * rng.randrange(int(min(xs) * 32) - 16, int(max(xs) * 32) + 16) + 1, 64),
                     F(2 * rng.randrange(int(min(ys) * 32) - 16, int(max(ys) * 32) + 16) + 1, 64)))
     return {"kind": "inside", "sub": sub, "vs": [list(v) for v in vs], "pts": [list(p) for p in pts],
-            "repr": rng.choice(["point", "ndarray"])}
+            "repr": rng.choice(FORMS_ANY + FORMS_F32)}
 
 
 def parity_up(p, vs):
@@ -588,33 +753,57 @@ def run_impl(case):
     from frame.geometry.geometry import Point
     from tools.floorset_parser.floor_set_manager.utils.utils import strop_decomposition, is_point_inside_polygon
     if case["kind"] == "inside":
-        if case["repr"] == "point":
-            verts = [Point(float(x), float(y)) for x, y in case["vs"]]
-        else:
-            verts = list(np.array([[float(x), float(y)] for x, y in case["vs"]]))
+        verts = make_vertices(case["vs"], case["repr"])
         return {"in": [bool(is_point_inside_polygon(Point(float(x), float(y)), verts)) for x, y in case["pts"]]}
-    pts = poly_vertices(case)
-    if case["repr"] == "point":
-        verts = [Point(float(x), float(y)) for x, y in pts]
+    if case["kind"] == "gpoly":
+        pts = gpoly_vertices(case)
     else:
-        verts = list(np.array([[float(x), float(y)] for x, y in pts]))
+        pts = poly_vertices(case)
+    verts = make_vertices(pts, case["repr"])
     try:
         rects = strop_decomposition(verts)
     except AssertionError as e:
         return {"rects": None, "why": str(e)[:200]}
     rects = [[float(v) for v in r] for r in rects]
-    # "loaded as a module": through the netlist reader, which defines the tolerances from the
-    # smallest side, refuses overlapping rectangles of a hard module and calls create_stog
+    obs = {"rects": rects}
+    if case.get("twice"):     # the same vertex object once more: the answer may not depend on an earlier call
+        try:
+            obs["again"] = [[float(v) for v in r] for r in strop_decomposition(verts)]
+        except AssertionError as e:
+            obs["again"] = None
+    obs.update(load_as_module(rects))
+    return obs
+
+
+def load_as_module(rects):
+    """"loaded as a module": through the netlist reader, which defines the tolerances from the smallest
+    side, refuses overlapping rectangles of a hard module and calls create_stog.  The reader refuses
+    negative numbers, so a decomposition reaching below 0 is first moved by a whole number of units
+    (exact in binary64 for the coordinates generated here; if it were not, the load test is skipped)."""
     from frame.netlist.netlist import Netlist
-    txt = "Modules: {M0: {rectangles: [" + ", ".join("[" + ", ".join(repr(v) for v in r) + "]" for r in rects) + \
+    fx = [[F(*v.as_integer_ratio()) for v in r] for r in rects]
+    lowx = min([r[0] - r[2] / 2 for r in fx] + [0])
+    lowy = min([r[1] - r[3] / 2 for r in fx] + [0])
+    dx, dy = -(lowx.numerator // lowx.denominator), -(lowy.numerator // lowy.denominator)
+    moved = [[float(r[0] + dx), float(r[1] + dy), float(r[2]), float(r[3])] for r in fx]
+    if any(F(*m[0].as_integer_ratio()) != r[0] + dx or F(*m[1].as_integer_ratio()) != r[1] + dy
+           for m, r in zip(moved, fx)):
+        return {"stog": None, "locs": [], "skipped": "translation not exact"}
+    if any(v < 0 for r in moved for v in r):
+        return {"stog": None, "locs": [], "skipped": "negative extent"}
+    txt = "Modules: {M0: {rectangles: [" + ", ".join("[" + ", ".join(repr(v) for v in r) + "]" for r in moved) + \
           "], hard: true}}\nNets: []\n"
     try:
         m = Netlist(txt).get_module("M0")
     except AssertionError as e:
-        return {"rects": rects, "stog": False, "locs": [], "load_error": str(e)[:200]}
+        return {"stog": False, "locs": [], "load_error": str(e)[:200]}
     ok = m.create_stog()
-    return {"rects": rects, "stog": bool(ok) and bool(m.has_stog), "locs": [r.location.name for r in m.rectangles],
-            "after": [[r.center.x, r.center.y, r.shape.w, r.shape.h] for r in m.rectangles]}
+    from frame.geometry.geometry import Rectangle
+    eps = Rectangle.distance_epsilon()
+    sides = [v for r in moved for v in (r[0] - r[2] / 2, r[0] + r[2] / 2, r[1] - r[3] / 2, r[1] + r[3] / 2)]
+    return {"stog": bool(ok) and bool(m.has_stog), "locs": [r.location.name for r in m.rectangles],
+            "after": [[r.center.x, r.center.y, r.shape.w, r.shape.h] for r in m.rectangles], "moved": [int(dx), int(dy)],
+            "eps": eps, "absorbed": any(v - eps == v or v + eps == v for v in sides)}
 
 
 def gqq(x):
@@ -627,12 +816,23 @@ def gpts(pts):
     return glist([f"({gqq(x)}, {gqq(y)})" for x, y in pts])
 
 
+def grects(rects):
+    return glist(['(' + ', '.join(gqq(v) for v in r) + ')' for r in rects])
+
+
 def to_coq(case, obs):
-    if case["kind"] == "poly":
-        vs = gpts(poly_vertices(case))
-        if obs["rects"] is None:
-            return f"ckp {vs} None"
-        return f"ckp {vs} (Some {glist(['(' + ', '.join(gqq(v) for v in r) + ')' for r in obs['rects']])})"
+    if case["kind"] in ("poly", "gpoly"):
+        pts = gpoly_vertices(case) if case["kind"] == "gpoly" else poly_vertices(case)
+        vs = gpts([(fexact(x), fexact(y)) for x, y in pts])
+        # decimal coordinates: the model computes with the exact values of the binary64 inputs; the cells, the
+        # instances and the order of the rectangles are not affected by rounding, the four numbers of a
+        # rectangle are (a sum or a difference of two inputs), so they are compared up to 2^-40
+        ck = "ckp" if case.get("mode") != "decimal" else "ckpc (q 1 1099511627776)"
+        out = []
+        for which in ("rects", "again"):
+            if which in obs:
+                out.append(f"{ck} {vs} " + ("None" if obs[which] is None else f"(Some {grects(obs[which])})"))
+        return " && ".join(f"({e})" for e in out)
     if case["kind"] == "inside":
         pbs = glist([f"(({gqq(x)}, {gqq(y)}), {gbool(b)})" for (x, y), b in zip(case["pts"], obs["in"])])
         return f"cki {gpts(case['vs'])} {pbs}"
@@ -672,38 +872,90 @@ def oracle(case, obs):
             if want is not None and want != got:
                 return f"point {tuple(map(str, p))}: is_point_inside_polygon says {got}, an upward ray crosses the outline an {'odd' if want else 'even'} number of times"
         return None
-    # polygon
-    pts = poly_vertices(case)
+    return polygon_oracle(case, obs)
+
+
+def fexact(v):
+    """The exact value of the binary64 number the implementation receives for coordinate v."""
+    return F(*float(v).as_integer_ratio())
+
+
+def raster(pts):
+    """Grid lines and 0/1 rows (top row first) of a polygon, by an upward ray from every cell centre of
+    the grid of its vertex coordinates (the code shoots its ray to the right)."""
+    xs = sorted(set(x for x, _ in pts))
+    ys = sorted(set(y for _, y in pts), reverse=True)
+    rows = ["".join("1" if parity_up(((a + b) / 2, (c + d) / 2), pts) else "0" for a, b in zip(xs, xs[1:]))
+            for c, d in zip(ys, ys[1:])]
+    return xs, ys, rows
+
+
+def polygon_oracle(case, obs):
+    exact = case.get("mode") != "decimal"
+    pts = gpoly_vertices(case) if case["kind"] == "gpoly" else poly_vertices(case)
     if case.get("closed"):
         pts = pts[:-1]
+    pts = [(fexact(x), fexact(y)) for x, y in pts]
+    if case["kind"] == "gpoly":       # the shape the polygon was traced from tells which cells are inside
+        X, Y, rows = [fexact(x) for x in case["xs"]], [fexact(y) for y in case["ys"]], case["rows"]
+    else:
+        X, Y, rows = raster(pts)
+    exists = has_decomp_fast(rows)
+    scale = max([1] + [abs(v) for v in X + Y])
+    tol = 0 if exact else scale * F(1, 10 ** 9)
+
+    def line(lines, v):
+        k = min(range(len(lines)), key=lambda i: abs(lines[i] - v))
+        return k if abs(lines[k] - v) <= tol else None
+    for which in ("rects", "again"):
+        if which not in obs:
+            continue
+        rects = obs[which]
+        tag = "" if which == "rects" else " (second call with the same vertex object)"
+        if rects is None:
+            if exists is not None:
+                return f"a single-trunk polygon was not decomposed{tag}: {obs.get('why')}"
+            continue
+        if not rects:
+            return f"empty decomposition{tag}"
+        if any(r[2] <= 0 or r[3] <= 0 for r in rects):
+            return f"a rectangle of the decomposition has no extent{tag}"
+        area = sum(fexact(r[2]) * fexact(r[3]) for r in rects)
+        want = shoelace(pts)
+        if abs(area - want) > tol * scale:
+            return f"rectangles have area {float(area)}, the polygon has area {float(want)}{tag}"
+        idx = []
+        for r in rects:
+            cx, cy, w, h = (fexact(v) for v in r)
+            c0, c1, r1, r0 = line(X, cx - w / 2), line(X, cx + w / 2), line(Y, cy - h / 2), line(Y, cy + h / 2)
+            if None in (c0, c1, r0, r1):
+                return f"rectangle {r} has a side that is not on a coordinate of the polygon's vertices{tag}"
+            idx.append((r0, r1 - 1, c0, c1 - 1))
+        p = check_instance(rows, idx)
+        if p:
+            return f"decomposition {rects}{tag}: in grid cells (row 0 on top) {p}"
     if obs["rects"] is None:
-        return f"a single-trunk polygon was not decomposed: {obs.get('why')}"
-    area = sum(F(*r[2].as_integer_ratio()) * F(*r[3].as_integer_ratio()) for r in obs["rects"])
-    if any(r[2] <= 0 or r[3] <= 0 for r in obs["rects"]):
-        return "a rectangle of the decomposition has no extent"
-    if area != shoelace(pts):
-        return f"rectangles have area {area}, the polygon has area {shoelace(pts)}"
+        return None
     if obs.get("load_error"):
         return f"the decomposition cannot be loaded as a module: {obs['load_error']}"
+    if obs["stog"] is None:
+        return None                   # not loadable through the reader for a reason outside the property (see load_as_module)
     if not obs["stog"]:
+        if obs.get("absorbed"):
+            return ("create_stog does not recognise the decomposition as a single-trunk orthogon " + ABSORBED +
+                    f" (tolerance {obs['eps']!r}, rectangles {obs['rects']})")
         return "create_stog does not recognise the decomposition as a single-trunk orthogon"
     if obs["locs"][0] != "TRUNK" or any(x not in ("NORTH", "SOUTH", "EAST", "WEST") for x in obs["locs"][1:]):
         return f"create_stog locations {obs['locs']}: trunk not first or a rectangle without a side"
-    # the decomposition itself lists the trunk first: every other rectangle abuts rects[0]
-    def box(r):
-        cx, cy, w, h = (F(*v.as_integer_ratio()) for v in r)
-        return cx - w / 2, cx + w / 2, cy - h / 2, cy + h / 2
-    tx0, tx1, ty0, ty1 = box(obs["rects"][0])
-    for r in obs["rects"][1:]:
-        a0, a1, b0, b1 = box(r)
-        ns = tx0 <= a0 and a1 <= tx1 and (b0 == ty1 or b1 == ty0)
-        ew = ty0 <= b0 and b1 <= ty1 and (a0 == tx1 or a1 == tx0)
-        if not (ns or ew):
-            return f"rectangle {r} does not abut the first rectangle (the trunk) {obs['rects'][0]}"
     return None
 
 
+ABSORBED = "[tolerance absorbed: 1e-12 x smallest side is below half an ulp of a side coordinate]"
+
+
 def failure_key(case, why):
+    if case["kind"] in ("poly", "gpoly") and why and ABSORBED in why:
+        return "C15/stog-tolerance-absorbed"
     return {"m": "C15/grid", "inside": "C15/point-inside"}.get(case["kind"], "C15/polygon")
 
 
@@ -731,6 +983,21 @@ def shrink(case):
         if case.get("repr") != "point":
             yield dict(case, repr="point")
         return
+    if case["kind"] == "gpoly":
+        rows, xs, ys = case["rows"], case["xs"], case["ys"]
+        base = dict(case, anchor=None, where="any")
+        if len(rows) > 1:
+            for k in range(len(rows)):
+                yield dict(base, rows=rows[:k] + rows[k + 1:], ys=ys[:k] + ys[k + 1:], gen="shrunk")
+        if len(rows[0]) > 1:
+            for k in range(len(rows[0])):
+                yield dict(base, rows=[r[:k] + r[k + 1:] for r in rows], xs=xs[:k + 1] + xs[k + 2:], gen="shrunk")
+        for flag in ("rev", "closed", "twice"):
+            if case.get(flag):
+                yield dict(case, **{flag: False})
+        if case.get("anchor") is None and case.get("rot"):
+            yield dict(case, rot=0)
+        return
     for s in "NSEW":
         for k in range(len(case[s])):
             yield dict(case, **{s: case[s][:k] + case[s][k + 1:]})
@@ -749,44 +1016,85 @@ def nontrivial(case):
         return sum(r.count("1") for r in case["rows"]) >= 2
     if case["kind"] == "inside":
         return len(case["vs"]) >= 3
+    if case["kind"] == "gpoly":
+        return sum(r.count("1") for r in case["rows"]) >= 2
     return any(case[s] for s in "NSEW")
 
 
 def dist_key(case):
     if case["kind"] == "m":
         g = case.get("gen", "?")
-        return "grid/" + ("exhaustive" if g.startswith("all") else g)
+        if g.startswith("large/"):
+            g = "large/" + g.split("/")[2]
+        return "grid/" + ("exhaustive" if g.startswith("all") else "sampled" if g.startswith("some") else g)
     if case["kind"] == "inside":
         return "point-inside/" + case.get("sub", "?")
+    if case["kind"] == "gpoly":
+        return "polygon/" + case.get("repr", "?") + "/" + case.get("mode", "?") + "/" + case.get("place", "?")
     return "polygon/" + ("cw" if case.get("rev") else "ccw") + "/" + case.get("repr", "?")
+
+
+def sampled_cases(rng, n, lo, hi):
+    """n matrices drawn uniformly from the shapes with lo < R*C <= hi cells (each shape as often as it has matrices)."""
+    shapes = [(R, C) for R in range(1, hi + 1) for C in range(1, hi + 1) if lo < R * C <= hi]
+    weights = [2 ** (R * C) for R, C in shapes]
+    for _ in range(n):
+        R, C = rng.choices(shapes, weights)[0]
+        s = format(rng.getrandbits(R * C), f"0{R * C}b")
+        yield {"kind": "m", "gen": f"some{R}x{C}", "rows": [s[i * C:(i + 1) * C] for i in range(R)]}
+
+
+def spread(cheap, heavy):
+    """One list with the heavy cases spread evenly among the cheap ones, so that every Coq shard
+    (consecutive cases) costs about the same."""
+    if not heavy:
+        return list(cheap)
+    out, k, step = [], 0, max(1, len(cheap) // len(heavy))
+    for i, h in enumerate(heavy):
+        out.append(h)
+        out += cheap[i * step:(i + 1) * step]
+        k = (i + 1) * step
+    return out + cheap[k:]
 
 
 def run(ctx, out, replay=None):
     quick = ctx.quick()
-    out.rule = ("all 0/1 matrices of every shape up to 4x4 (quick) / every shape with at most 16 cells, the bound of the "
-                "completeness theorem (thorough; R*C <= 20 does not fit the 15 minute budget); random matrices up to 10x10: single-trunk shapes, the same with 1-3 "
-                "flipped cells, holes, disconnected pieces, staircases, iid noise at four densities, full/empty, ragged "
-                "rows; random simple orthogonal single-trunk polygons (dyadic coordinates, both orientations, any "
-                "start vertex, Point or ndarray vertices, open or closed lists); is_point_inside_polygon on such polygons and on "
-                "slanted / self-intersecting vertex lists (three y levels) at cell centres, vertices, edge points and generic "
-                "points; non-trivial = at least two true cells / at least one branch / at least three vertices; distinct by hash")
-    cases = []
+    out.rule = ("all 0/1 matrices of every shape with at most 12 cells plus a uniform sample of the shapes with 13-16 cells "
+                "(quick) / every shape with at most 16 cells (thorough); random matrices up to 10x10: single-trunk "
+                "shapes, the same with 1-3 flipped cells, holes, disconnected pieces, staircases, iid noise at four "
+                "densities, full/empty, ragged rows; LARGE grids with sides up to 40 built as trunk + four side profiles "
+                "(branch lengths 9, 10, 15, 16, 17, 31, 32, 33 and short ones; combs with teeth of distinct heights, ramps, "
+                "blocks up to 33 wide, single arms = long L/T/plus shapes, full sides) then left alone or perturbed (hole "
+                "in a branch, tip removed, cell in a corner quadrant, cell beside a branch, trunk cell removed, random "
+                "flips, far cell), half of them transposed; matrices as TEXT with every separator str.split accepts, "
+                "leading/trailing/multiple separators, non-binary characters; random simple orthogonal single-trunk "
+                "polygons and polygons traced from grid shapes (also not single-trunk: refusal expected), up to 24x24 "
+                "cells, in every input form (Point with floats / ints, list of ndarray rows, 2-D ndarray of float64 / "
+                "float32 / int64 / int32, mixed), both orientations, every start vertex, open or closed, coordinates "
+                "dyadic / integer / decimal, positive / negative / straddling 0 / a corner exactly at (-1,-1), (0,0), ... "
+                "listed last or first / offsets up to 2^20 and 10^6, some decomposed twice from the same object; "
+                "is_point_inside_polygon on such polygons and on slanted / self-intersecting vertex lists (three y "
+                "levels) at cell centres, vertices, edge points and generic points; non-trivial = at least two true "
+                "cells / at least one branch / at least three vertices; distinct by hash")
+    head = []
     if replay and "case" in replay:
-        cases.append(fr.unjson(replay["case"]))
-    cases += fr.load_corpus("C15")
+        head.append(fr.unjson(replay["case"]))
+    head += fr.load_corpus("C15")
+    rng = ctx.rng
     if quick:
-        cases += list(exhaustive_cases(16, 4))
-        nrand, npoly, ninside = 3000, 600, 200
+        cheap = list(exhaustive_cases(12, 12)) + list(sampled_cases(rng, 6000, 12, 16))
+        nrand, npoly, ngpoly, nbig, ninside, nlarge, ntext = 3000, 300, 500, 40, 200, 400, 400
     else:
-        cases += list(exhaustive_cases(16, 16))
-        nrand, npoly, ninside = 40000, 6000, 3000
-    # the polygon cases go first: their Coq shards (exact rationals) are the slowest and the
-    # shards are evaluated in parallel in list order
-    for _ in range(npoly):
-        cases.append(gen_poly_case(ctx.rng))
-    for _ in range(ninside):
-        cases.append(gen_inside_case(ctx.rng))
-    for _ in range(nrand):
-        cases.append(gen_matrix_case(ctx.rng))
+        cheap = list(exhaustive_cases(16, 16))
+        nrand, npoly, ngpoly, nbig, ninside, nlarge, ntext = 40000, 3000, 5000, 400, 3000, 5000, 5000
+    cheap += [gen_matrix_case(rng) for _ in range(nrand)]
+    cheap += [gen_text_case(rng) for _ in range(ntext)]
+    heavy = [gen_large_case(rng) for _ in range(nlarge)]
+    heavy += [gen_poly_case(rng) for _ in range(npoly)]
+    heavy += [gen_gpoly_case(rng) for _ in range(ngpoly)]
+    heavy += [gen_gpoly_case(rng, big=True) for _ in range(nbig)]
+    heavy += [gen_inside_case(rng) for _ in range(ninside)]
+    rng.shuffle(heavy)
+    cases = head + spread(cheap, heavy)
     fr.run_cases(ctx, out, cases, run_impl, to_coq, oracle, failure_key, HEADER,
                  dist_key=dist_key, nontrivial=nontrivial, shard=1000, shrink=shrink)
